@@ -418,7 +418,7 @@ func splitSexp(s string) []string {
 				out = append(out, s[start:i+1])
 				start = -1
 			}
-		case ' ':
+		case ' ', '\n', '\t', '\r':
 			if d == 0 && start >= 0 {
 				out = append(out, s[start:i])
 				start = -1
